@@ -64,7 +64,7 @@ package http2
 //@   ensures [C19:header-consumes-9] err == nil ==> consumed(r) == old(consumed(r)) ++ post(buf)[:9]
 
 //@ func parseDataFrame :: fc, fh, countError, payload -> f, err
-//@   props C19,C10
+//@   props C19,C10,C13
 //@   callback countError
 //@   ensures [C19:any-frame-header] err == nil ==> f != nil && hdrOf(f) == fh
 //@   ensures [C19:any-error-kind] err != nil ==> f == nil
@@ -77,7 +77,7 @@ package http2
 //@   ensures [C19:error-no-frame] err != nil ==> f == nil
 
 //@ func parsePingFrame :: fc, fh, countError, payload -> f, err
-//@   props C19,C10
+//@   props C19,C10,C13
 //@   callback countError
 //@   ensures [C19:any-frame-header] err == nil ==> f != nil && hdrOf(f) == fh
 //@   ensures [C19:any-error-kind] err != nil ==> f == nil
@@ -88,7 +88,7 @@ package http2
 //@   ensures [C19:error-no-frame] err != nil ==> f == nil
 
 //@ func parseGoAwayFrame :: fc, fh, countError, p -> f, err
-//@   props C19,C10
+//@   props C19,C10,C13
 //@   callback countError
 //@   ensures [C19:any-frame-header] err == nil ==> f != nil && hdrOf(f) == fh
 //@   ensures [C19:any-error-kind] err != nil ==> f == nil
@@ -107,7 +107,7 @@ package http2
 //@   ensures [C19:unknown-kept] err == nil && isptr(UnknownFrame, f) && unboxptr(UnknownFrame, f) != nil && val(unboxptr(UnknownFrame, f).FrameHeader) == fh && unboxptr(UnknownFrame, f).p == p
 
 //@ func parseWindowUpdateFrame :: fc, fh, countError, p -> f, err
-//@   props C19,C10,C03
+//@   props C19,C10,C03,C13
 //@   callback countError
 //@   ensures [C19:any-frame-header] err == nil ==> f != nil && hdrOf(f) == fh
 //@   ensures [C19:any-error-kind] err != nil ==> f == nil
@@ -120,7 +120,7 @@ package http2
 //@   ensures [C19:error-no-frame] err != nil ==> f == nil
 
 //@ func parsePriorityFrame :: fc, fh, countError, payload -> f, err
-//@   props C19,C10
+//@   props C19,C10,C13
 //@   callback countError
 //@   ensures [C19:any-frame-header] err == nil ==> f != nil && hdrOf(f) == fh
 //@   ensures [C19:any-error-kind] err != nil ==> f == nil
@@ -131,7 +131,7 @@ package http2
 //@   ensures [C19:error-no-frame] err != nil ==> f == nil
 
 //@ func parseRSTStreamFrame :: fc, fh, countError, p -> f, err
-//@   props C19,C10
+//@   props C19,C10,C13
 //@   callback countError
 //@   ensures [C19:any-frame-header] err == nil ==> f != nil && hdrOf(f) == fh
 //@   ensures [C19:any-error-kind] err != nil ==> f == nil
@@ -142,7 +142,7 @@ package http2
 //@   ensures [C19:error-no-frame] err != nil ==> f == nil
 
 //@ func parseContinuationFrame :: fc, fh, countError, p -> f, err
-//@   props C19,C10
+//@   props C19,C10,C13
 //@   callback countError
 //@   ensures [C19:any-frame-header] err == nil ==> f != nil && hdrOf(f) == fh
 //@   ensures [C19:any-error-kind] err != nil ==> f == nil
@@ -157,7 +157,7 @@ package http2
 //@ pure func hPadLen(fh FrameHeader, p seq[byte]) int = ite(flag(fh.Flags, 8), p[0], 0)
 
 //@ func parseHeadersFrame :: fc, fh, countError, p -> f, err
-//@   props C19,C10
+//@   props C19,C10,C13
 //@   callback countError
 //@   ensures [C19:any-frame-header] err == nil ==> f != nil && hdrOf(f) == fh
 //@   ensures [C19:any-headers-type] err == nil ==> isptr(HeadersFrame, f) && unboxptr(HeadersFrame, f) != nil
@@ -220,7 +220,7 @@ package http2
 //@   use firstStays(f.p, id, i+1, len(f.p)/6)
 
 //@ func parseSettingsFrame :: fc, fh, countError, p -> f, err
-//@   props C19,C10,C12
+//@   props C19,C10,C12,C13
 //@   callback countError
 //@   ensures [C19:any-frame-header] err == nil ==> f != nil && hdrOf(f) == fh
 //@   ensures [C19:any-error-kind] err != nil ==> f == nil
